@@ -68,6 +68,18 @@ def plant(parts, rng, tg):
         a, b = rng.sample(['Cac', 'Cex', 'Bdir', 'Bind', 'P', 'O'], 2)
         out.append(("mixed-types-in-nested-combination", "INVALID_TYPE_COMBINATIONS_IN_NESTED_STATEMENT_COMBINATIONS",
                     TX.r_stmt(replace_at(parts, path, st + [('fill', a + "{" + mk(a) + " [" + rng.choice(TX.OPS) + "] " + mk(b) + "}")]))))
+        # sibling nested statements of one type joined by two different operators (no braces): no precedence
+        if not path and not any(p[0] in ('nested', 'ncombo', 'pairs') for p in st):
+            used = {p[1] for p in st if p[0] == 'comp'}
+            free = [x for x in ['Cac', 'Cex', 'Bdir', 'Bind', 'O'] if x not in used]
+            if free:
+                sy = rng.choice(free)
+                sib = lambda: sy + "{A(" + tg.word() + ") I(" + tg.word() + ")}"
+                for o1 in TX.OPS:
+                    for o2 in TX.OPS:
+                        if o1 != o2:
+                            out.append(("mixed-operators-between-nested-statements", "INVALID_LOGICAL_OPERATOR_COMBINATIONS",
+                                        TX.r_stmt(st + [('fill', sib() + " [" + o1 + "] " + sib() + " [" + o2 + "] " + sib())])))
         # a second component-pair expression on the level
         pair = lambda: "{I(" + tg.word() + ") [" + rng.choice(TX.OPS) + "] I(" + tg.word() + ")}"
         in_f25_region = bool(path) and sum(1 for p in st if p[0] == 'comp') >= 2 and any(p[0] == 'comp' and p[4][0] == 'comb' for p in st)   # known finding F25 (C03)
